@@ -11,7 +11,11 @@ use serde_json::{json, Value};
 
 /// "interesting" finite scalars
 pub fn scalar(rng: &mut Rng) -> f64 {
-    match rng.below(10) {
+    match rng.below(13) {
+        // next to the neutral elements: "skip the work if the scalar is (almost) 1 / 0" shortcuts live here
+        10 => *rng.pick(&[1.0f64.next_up(), 1.0f64.next_down(), (-1.0f64).next_up(), (-1.0f64).next_down()]),
+        11 => rng.float_exp(-56, -50),
+        12 => f64::from_bits(1 + rng.below(1 << 52)) * if rng.bool() { 1.0 } else { -1.0 },
         0 => 0.0,
         1 => -0.0,
         2 => -1.0,
@@ -62,7 +66,7 @@ fn from_roots(roots: &[f64]) -> Vec<f64> {
 pub fn drive_eval(seed: u64, n: usize, sink: &mut Sink) -> usize {
     let mut rng = Rng::new(seed);
     let mut nontrivial = 0;
-    let mut emit = |sink: &mut Sink, form: &str, c: &[f64], x: f64, y: f64| {
+    let emit = |sink: &mut Sink, form: &str, c: &[f64], x: f64, y: f64| {
         sink.ev(json!({"ev":"eval","form":form,"c":jbs(c),"x":jb(x),"y":jb(y)}));
     };
     for it in 0..n {
@@ -129,7 +133,7 @@ pub fn drive_eval(seed: u64, n: usize, sink: &mut Sink) -> usize {
                     3 => f64::from_bits(1 + rng.below(1 << 52)), // subnormal
                     4 => rng.float_exp(-60, -1).abs(),
                     5 => rng.float_exp(-3, 3).abs(),
-                    6 => (rng.unit() * 1e-3 + 1e-6),
+                    6 => rng.unit() * 1e-3 + 1e-6,
                     _ => rng.float_exp(1, 60).abs(),
                 };
                 let y = if fixed { log_poly_eval(&c, v) } else { Log(PolyN(c.clone())).evaluate(v) };
